@@ -374,7 +374,9 @@ def scale [Mul α] [Zero α] (T : Dense α) (F : Dense α) (dims : List Int) : E
     | .ok A =>
       let m := A.data.shape.getD 0 0
       let n := A.data.shape.getD 1 0
-      let prod : Mat α := (reshape2 A.data.data m n).zipIdx.map fun (row, a) => row.map fun x => x * F.data.getD a 0
+      -- numpy broadcasting of the factor column along the rows
+      let prod : Mat α := (List.range m).map fun a => (List.range n).map fun b =>
+        (reshape2 A.data.data m n).get a b * F.data.getD a 0
       .ok (Tenmat.toTensor ⟨T.shape, sdims, rem, ⟨[m, n], prod.flatF m n⟩⟩)
 
 /-- `tensor.ttt(other, selfdims, otherdims)` through two matricizations and a matrix product. -/
